@@ -15,7 +15,40 @@ import (
 // C11: the simplified SWU map and the 3-isogeny are total and RFC-exact on every field element.
 
 type caseC11 struct {
-	U FV `json:"u"`
+	U      FV   `json:"u"`
+	Target bool `json:"targeted,omitempty"` // u was solved so that tv1 or tv2 takes a chosen value
+}
+
+var (
+	half   = ref.FInv0(big.NewInt(2))
+	zInvFp = ref.FInv0(ref.SswuZ)
+)
+
+// sqrtIfSquare returns a square root of a, or nil.
+func sqrtIfSquare(a *big.Int) *big.Int {
+	if !ref.IsSquare(a) {
+		return nil
+	}
+	return ref.Sqrt(a)
+}
+
+// solveUForIntermediate returns u with Z u^2 = tau (tv2 false) or (Z u^2)^2 + Z u^2 = tau (tv2 true), or nil.
+func solveUForIntermediate(tau *big.Int, tv2 bool) *big.Int {
+	cands := []*big.Int{tau}
+	if tv2 {
+		// tv1^2 + tv1 - tau = 0  =>  tv1 = (-1 +- sqrt(1 + 4 tau)) / 2
+		r := sqrtIfSquare(ref.FAdd(bigOne, ref.FMul(big.NewInt(4), tau)))
+		if r == nil {
+			return nil
+		}
+		cands = []*big.Int{ref.FMul(ref.FSub(r, bigOne), half), ref.FMul(ref.FSub(ref.FNeg(r), bigOne), half)}
+	}
+	for _, tv1 := range cands {
+		if u := sqrtIfSquare(ref.FMul(tv1, zInvFp)); u != nil {
+			return u
+		}
+	}
+	return nil
 }
 
 // affineOf reads the affine coordinates of an element with z = 1 as produced by SSWU / the isogeny.
@@ -34,6 +67,14 @@ var c11 = gen.Register(&gen.Check[caseC11]{
 		if gen.Chance(t, "exceptional", 1, 16) {
 			return caseC11{U: fv(rapid.SampledFrom(ref.ExceptionalU()).Draw(t, "exc"))}
 		}
+		if gen.Chance(t, "targeted", 1, 3) {
+			// drive an intermediate value of the map (tv1 = Z u^2, tv2 = tv1^2 + tv1: the operand of the
+			// exceptional-case zero test) to a boundary pattern, in canonical or Montgomery form, by solving for u
+			tau := FVGen().Draw(t, "tau").Value()
+			if u := solveUForIntermediate(tau, rapid.Bool().Draw(t, "tv2")); u != nil {
+				return caseC11{U: fv(u), Target: true}
+			}
+		}
 		return caseC11{U: FVGen().Draw(t, "u")}
 	},
 	Fixed: func() []caseC11 {
@@ -46,13 +87,14 @@ var c11 = gen.Register(&gen.Check[caseC11]{
 		}
 		return out
 	},
-	Required: []string{"exceptional", "gx1square=true,signflip=true", "gx1square=true,signflip=false", "gx1square=false,signflip=true", "gx1square=false,signflip=false"},
+	Required: []string{"targeted-intermediate", "exceptional", "gx1square=true,signflip=true", "gx1square=true,signflip=false", "gx1square=false,signflip=true", "gx1square=false,signflip=false"},
 	Run: func(c caseC11, o *gen.Obs) error {
 		u := c.U.Value()
 		fe := c.U.Build()
 		fe0 := fe.E
 		wx, wy, tr := ref.SSWU(u)
 		o.ClassIf(tr.Exceptional, "exceptional")
+		o.ClassIf(c.Target, "targeted-intermediate")
 		o.Class("gx1square=%v,signflip=%v", tr.Gx1Square, tr.SignFlipped)
 		o.NonTrivial()
 		q := secp256k1.SSWU(fe)
@@ -115,7 +157,20 @@ var c11iso = gen.Register(&gen.Check[caseC11iso]{
 	Name:   "C11/isogeny",
 	Weight: 0.5,
 	Gen: func(t *rapid.T) caseC11iso {
-		return caseC11iso{X: gen.H(gen.Int(ref.P).Draw(t, "x")), Odd: rapid.Bool().Draw(t, "odd")}
+		x := gen.Int(ref.P).Draw(t, "x")
+		if gen.Chance(t, "targeted", 1, 3) {
+			// the isogeny tests 1/x_den and y_den for zero, with x_den = (x' - xT)^2 and y_den = (x' - xT)^3:
+			// choose x' so that one of them takes a boundary pattern
+			tau := FVGen().Draw(t, "tau").Value()
+			if rapid.Bool().Draw(t, "xden") {
+				if r := sqrtIfSquare(ref.FInv0(tau)); r != nil {
+					x = ref.FAdd(isoXT, r)
+				}
+			} else if r := cubeRoot(tau); r != nil {
+				x = ref.FAdd(isoXT, r)
+			}
+		}
+		return caseC11iso{X: gen.H(x), Odd: rapid.Bool().Draw(t, "odd")}
 	},
 	Run: func(c caseC11iso, o *gen.Obs) error {
 		if !pt.Calibrated() {
@@ -158,3 +213,22 @@ var c11iso = gen.Register(&gen.Check[caseC11iso]{
 })
 
 func TestC11Isogeny(t *testing.T) { c11iso.Execute(t) }
+
+// isoXT is the kernel abscissa of the isogeny: x_den = x'^2 + k21 x' + k20 = (x' - xT)^2, so xT = -k21/2.
+var isoXT = func() *big.Int {
+	k21 := gen.B("edadc6f64383dc1df7c4b2d51b54225406d36b641f5e41bbc52a56612a8c6d14")
+	return ref.FMul(ref.FNeg(k21), half)
+}()
+
+// cubeRoot returns a cube root of a in F_p (p = 7 mod 9), or nil.
+func cubeRoot(a *big.Int) *big.Int {
+	e := new(big.Int).Div(new(big.Int).Add(ref.P, big.NewInt(2)), big.NewInt(9))
+	r := new(big.Int).Exp(a, e, ref.P)
+	for i := 0; i < 3; i++ {
+		if ref.FMul(ref.FMul(r, r), r).Cmp(new(big.Int).Mod(a, ref.P)) == 0 {
+			return r
+		}
+		r = ref.FMul(r, ref.Beta)
+	}
+	return nil
+}
